@@ -82,6 +82,50 @@ def render (alphabet : List Nat) (k : Nat) (h : Nat) : List Nat :=
 def getKmers (n k : Nat) (rows : List (List Nat)) : List (List Int) := rolling k (kmerHash n) rows
 def getKmersOld (n k : Nat) (rows : List (List Nat)) : List (List Int) := rollingOld k (kmerHash n) rows
 
+/-! ### the 2-bit packed path (`npstructures.bitarray.BitArray`, modelled literally on uint64 words) -/
+
+/-- uint64 truncation -/
+def word64 (x : Nat) : Nat := x % 18446744073709551616
+
+/-- one register of `BitArray.pack(array, bit_stride=2)`: `bits = array[0::32]` then, for
+`i = 1..31`, `bits |= array[i::32] << 2i` (the accumulator starts with entry 0 unshifted) -/
+def packAcc (acc i : Nat) : List Nat → Nat
+  | [] => acc
+  | x :: xs => packAcc (acc ||| word64 (x <<< (2 * i))) (i + 1) xs
+
+def packWord (chunk : List Nat) : Nat := packAcc 0 0 chunk
+
+/-- register `r` holds entries `32r .. 32r+31` -/
+def pack (a : List Nat) : List Nat :=
+  (List.range ((a.length + 31) / 32)).map (fun r => packWord ((a.drop (32 * r)).take 32))
+
+/-- `mask = (~uint64(0)) >> (64 - 2k)` -/
+def windowMask (k : Nat) : Nat := 18446744073709551615 >>> (64 - 2 * k)
+
+/-- `BitArray.sliding_window(k)`, entry `i` of register `r`:
+`res = data[:, None] >> shifts; res[:-1] |= data[1:, None] << (shifts[::-1] + 2); res &= mask` -/
+def slidingEntry (k : Nat) (words : List Nat) (r i : Nat) : Nat :=
+  let lo := words.getD r 0 >>> (2 * i)
+  let v := if r + 1 < words.length then lo ||| word64 (words.getD (r + 1) 0 <<< (64 - 2 * i)) else lo
+  v &&& windowMask k
+
+/-- `res.ravel()[: N - k + 1]` -/
+def slidingWindow (k N : Nat) (words : List Nat) : List Nat :=
+  ((List.range (32 * words.length)).map (fun j => slidingEntry k words (j / 32) (j % 32))).take (N + 1 - k)
+
+/-- `_get_dna_kmers` on the flat sequence: pack two bits per letter, slide -/
+def packedKmers (k : Nat) (a : List Nat) : List Nat := slidingWindow k a.length (pack a)
+
+/-- `get_kmers` for a 4-letter alphabet: the `convolution` decorator around `_get_dna_kmers` -/
+def getKmersPackedWith (trim : Nat → Option Int) (k : Nat) (rows : List (List Nat)) : List (List Int) :=
+  rewrapSlice (trim k) (rows.map List.length) ((packedKmers k rows.flatten).map Int.ofNat)
+
+def getKmersPacked := getKmersPackedWith trimNew
+
+/-- the code path `get_kmers` takes: packed for `|A| = 4`, generic otherwise -/
+def getKmersDispatch (n k : Nat) (rows : List (List Nat)) : List (List Int) :=
+  if n = 4 then getKmersPacked k rows else getKmers n k rows
+
 /-! ### minimizers -/
 
 def minInt : List Int → Option Int
@@ -160,6 +204,17 @@ def countKmers (n k : Nat) (rows : List (List Nat)) : List Nat := bincount (n ^ 
 /-- `count_kmers(sequence, k, axis=-1)` -/
 def countKmersRows (n k : Nat) (rows : List (List Nat)) : List (List Nat) := (getKmers n k rows).map (bincount (n ^ k))
 def countKmersOld (n k : Nat) (rows : List (List Nat)) : List Nat := bincount (n ^ k) (getKmersOld n k rows).flatten
+
+/-- `KmerEncoding.get_labels()`: the text of every code `0 .. n^k - 1` -/
+def getLabels (alphabet : List Nat) (k : Nat) : List (List Nat) :=
+  (List.range (alphabet.length ^ k)).map (render alphabet k)
+
+/-- `count_kmers` as the caller sees it: `(labels, counts)` with `get_kmers` taking its real path -/
+def countKmersLabeled (alphabet : List Nat) (k : Nat) (rows : List (List Nat)) : List (List Nat) × List Nat :=
+  (getLabels alphabet k, bincount (alphabet.length ^ k) (getKmersDispatch alphabet.length k rows).flatten)
+
+def countKmersRowsLabeled (alphabet : List Nat) (k : Nat) (rows : List (List Nat)) : List (List Nat) × List (List Nat) :=
+  (getLabels alphabet k, (getKmersDispatch alphabet.length k rows).map (bincount (alphabet.length ^ k)))
 
 def specCountKmers (n k : Nat) (rows : List (List Nat)) : List Nat :=
   bincount (n ^ k) (spec k (fun win => (hashLE n win : Int)) rows).flatten
